@@ -10,6 +10,48 @@ M = "MIR -> SMT-LIB2 translation (own translator over the nightly MIR dump of th
 
 # id -> (claimed?, technique, level text, level_note, design_ref) ; unclaimed -> reason
 CLAIMS = {
+    "C01": dict(
+        technique=K,
+        text="Inductive step: from ANY pre-state of the screen invariant (previous frame of b <= H rows, any cursor column, parked or unparked start) one real "
+             "DrawState::draw_to_term call with symbolic line lengths and a symbolic split into text and bar lines leaves the log rows untouched, no remnant "
+             "of the old frame, every painted line on its wrapped rows in order, last_line_count = painted bar rows, the cursor parked for a fresh line, and "
+             "the invariant again (so histories of any length are covered); plus the composition of frames by BarState::draw/println (text lines first, one "
+             "Bar line per message row, nothing when finished-and-cleared). Bounded to W <= 4, H <= 4, <= 3 lines of <= 2W columns.",
+        note="Abstract screen model (deferred wrap, visible window, clamped cursor moves) instead of a real terminal, validated against InMemoryTerm; "
+             "measure_text_width = byte length on ASCII tag lines; str::repeat stubbed by a fixed-capacity filler; move_cursor=false; two recorded known "
+             "findings are carved out by region and kept under watch by witness harnesses.",
+        ref="4/C01"),
+    "C05": dict(
+        technique=M + "; wiring (forced draws bypass the limiter, skipped draws lose nothing) by " + K,
+        engine="mirsmt",
+        text="Engine M executes the MIR of RateLimiter::{new,allow} and AtomicPosition::{new,allow,reset} symbolically. For every refresh rate of the tier, an "
+             "inductive credit lemma (one call from an arbitrary invariant state: admitted <=> credit >= I, capacity' <= B-1, credit decreases by I, remainder "
+             "in [0,I), refusal keeps the state, reset adds no credit, I >= 1/R) gives the window law for windows of ANY length; a direct B+2..B+4-call unrolling "
+             "re-checks it representation-independently; staleness (a request >= 1/R after a painted frame is painted, first request after new() is painted) and "
+             "absence of overflow/division/unwrap panics are separate queries. z3 and cvc5 must agree.",
+        note="Time model: integer ns, instants < 2^62; std Instant/Duration/atomic functions are modelled (listed in evidence); sequential callers only; the "
+             "telescoping step from the lemmas to the window law is a pen-and-paper argument in DESIGN.md; translator self-validated on every run against the "
+             "native functions (incl. the repo's own test vectors).",
+        ref="4/C05"),
+    "C07": dict(
+        technique=K,
+        text="For histories of 4 symbolic operations with arguments over the whole u64 range the solver shows position = wrapping reference and length = "
+             "saturating reference (AtomicPosition / ProgressState / hidden BarState), every ProgressFinish variant sets or keeps the position as documented, "
+             "and fraction() is in [0,1], 1 for zero length, 0 for unknown length, never NaN, bit-precisely for every (pos, Option<len>) in u64 x u64.",
+        note="Concurrent inc/dec are NOT explored (Kani has no thread model): the claim is sequential; the mechanism (one fetch_add/fetch_sub on one atomic) is "
+             "only noted. ProgressBar-level wrappers are covered by one thorough-tier harness (very expensive under CBMC).",
+        ref="4/C07"),
+    "C08": dict(
+        technique="MIR path analysis with SMT feasibility queries (z3 + cvc5) over the nightly MIR dump of the current tree: lock-order discipline and ticker-loop structure",
+        engine="mirsmt",
+        text="For every control-flow path of every function in progress_bar.rs, multi.rs, state.rs, draw_target.rs and iter.rs the analysis tracks which lock "
+             "guards are held (from the MIR types and drop terminators) and shows: locks are only taken in the order ticker-slot < bar-state < multi-state, the "
+             "ticker thread is never joined while the bar state or the multi state is held, and the stop flag is a leaf; candidate violations are checked for path "
+             "feasibility by the solver. The ticker loop's every way back to its head passes upgrade()==Some, !is_finished, wait_timeout_while and timed_out; the "
+             "interval is used only as the wait timeout; tick_inner ticks only when the slot is empty; stop sets the flag under its mutex before notifying.",
+        note="Interleavings are NOT enumerated: this is the sufficient lock-discipline condition for deadlock freedom, assuming user callbacks do not re-enter and std's "
+             "Mutex/Condvar semantics; calls through closures/trait objects are treated as not taking library locks.",
+        ref="4/C08"),
     "C12": dict(
         technique=K,
         text="For every content string of <= 4 characters over {ASCII, 2-byte/1-column, 3-byte/2-column}, every width 0..=6, every alignment and "
@@ -18,15 +60,32 @@ CLAIMS = {
         note="console::measure_text_width is replaced by a byte-class width model (validated natively); no ANSI escapes in content; "
              "truncation of multi-byte content is a recorded known finding (witness harnesses must keep failing in that region only).",
         ref="4/C12"),
+    "C13": dict(
+        technique=K,
+        text="Bit-precise f32: for every fraction in [0,1], N <= 65535, c in {1,2}, 2..=10 progress glyphs the real format_bar yields floor(N/c) cells, "
+             "floor(fraction*cells) filled (one-ulp rounding at exact integers tolerated and covered), at most one partial cell exactly when neither empty nor "
+             "full, partial index within the configured set; filled == cells <=> pos >= len for len <= 2^24; monotone in the position; the rendered text is "
+             "filled glyphs, partial glyph, background glyphs (N <= 8).",
+        note="wide_bar end-to-end (format_state + format! + str::replace) exceeds CBMC's memory; it is claimed only through its two ingredients (cell count "
+             "of format_bar for the remaining columns; see DESIGN 4/C13). Monotonicity over the full u64 range is thorough-tier (stage-wise).",
+        ref="4/C13"),
     "C14": dict(
         technique=K,
-        text="Builder side: for the concrete rejected configurations (0/1 tick strings, 0/1 tick chars, 0/1 progress chars, mixed-width "
+        text="Builder side: for the concrete rejected configurations (0/1 tick strings, 0/1 tick chars incl. one multi-byte char, 0/1 progress chars, mixed-width "
              "progress chars) the solver shows the builder call itself ends in a panic (should_panic harnesses that call only the builder). "
              "Render side: for every accepted tick-string count 2..=6 and every u64 tick, every progress-char count 2..=10, every f32 fraction "
              "in [0,1] and every width <= 65535 the indexing in get_tick_str/get_final_tick_str/format_bar/BarDisplay cannot panic.",
         note="Styles are built on a directly constructed ProgressStyle (rig) instead of ProgressStyle::default_bar(); RandomState::new and "
              "console::colors_enabled* are stubbed; rendering loop bounded to width <= 6 (index arithmetic checked up to 65535).",
         ref="4/C14"),
+    "C19": dict(
+        technique=K,
+        text="Same inductive draw_to_term step as C01, for frames whose bar lines do NOT all fit into the terminal height and for lines of 0..=2W columns "
+             "(exact multiples of W included): painting stops at the first bar that does not fit, last_line_count <= H, the accounted rows end at the cursor "
+             "and lie inside the visible window, no row of the old frame survives, and the post-state satisfies the invariant again (so the next draw erases "
+             "the region completely and omitted bars are painted as soon as they fit, the painted prefix being a function of the current lines only).",
+        note="Abstract screen model; W <= 4, H <= 3, <= 3 lines; measure_text_width = byte length; terminals larger than the bound are outside the claim.",
+        ref="4/C19"),
 }
 
 NOT_YET = "check not built yet in this session (work in progress; see DESIGN.md section 7 for the order of work)"
